@@ -30,6 +30,7 @@ type bEngine struct {
 	dyn    map[string]types.Type // interface parameter -> dynamic type fixed by the contract
 	storeCount int
 	maxPaths   int
+	loopAbs    bool
 	allocMax   *big.Int
 	nilable    bool // pointer fields of symbolic inputs have a symbolic nil-ness
 	safety     bool // the contract asks for the run-time-panic obligations of make and slicing
@@ -267,6 +268,9 @@ func (e *bEngine) storeAt(st *bState, p bPtr, v bVal) {
 	if p.obj == 0 {
 		panic(bPathEnd{"nil pointer dereference"})
 	}
+	if strings.Contains(p.path, "[?") {
+		panic(verr("store at a symbolic index (%s): give the contract a case/unwind that makes it concrete", p.path))
+	}
 	o := e.obj(st, p.obj)
 	comps := splitPath(p.path)
 	v = cloneVal(v)
@@ -359,6 +363,9 @@ func asScalar(v bVal) (*Term, bool) {
 func (e *bEngine) binop(st *bState, op token.Token, x, y bVal, typ types.Type) bVal {
 	a, ok1 := asScalar(x)
 	b, ok2 := asScalar(y)
+	if ok1 && ok2 && (a == nil || b == nil) {
+		panic(verr("internal: scalar without a term in %s", op))
+	}
 	if ok1 && ok2 {
 		if a.Sort == SBool || b.Sort == SBool {
 			switch op {
